@@ -58,9 +58,9 @@ func (s *StubNet) PeerInfo() xpb.PeerInfo          { return xpb.PeerInfo{} }
 // (the drivers deliver votes themselves).
 type Election struct{ Validators []string }
 
-func (e *Election) GetLeader(round int64) string        { return "" }
-func (e *Election) GetValidators(round int64) []string  { return e.Validators }
-func (e *Election) GetIntAddress(a string) string       { return a }
+func (e *Election) GetLeader(round int64) string       { return "" }
+func (e *Election) GetValidators(round int64) []string { return e.Validators }
+func (e *Election) GetIntAddress(a string) string      { return a }
 
 // Member returns the key of validator i (1-based); Outsider(j) keys are never in a validator set.
 func Member(i int) *fx.Key   { return fx.GetKey(fmt.Sprintf("cbft-member-%d", i)) }
